@@ -280,8 +280,8 @@ func (r *Runner) Step(st []any, noLS bool) (res string, ack bool) {
 	ctx := r.ctx
 	isLS := strings.HasPrefix(op, "Ls") || strings.HasPrefix(op, "Ck") || op == "Fault" || op == "ClearFaults" || op == "SnapRetention" ||
 		op == "L0Retention" || op == "RetByTXID" || op == "RestoreCheck" || op == "AuditNow" || op == "MetaLost" || op == "Snapshot" || op == "Compact" ||
-		strings.HasPrefix(op, "Ret") || op == "ReplaceDb" || op == "SaveCopy"
-	if noLS && isLS && op != "ReplaceDb" && op != "SaveCopy" {
+		strings.HasPrefix(op, "Ret") || op == "ReplaceDb" || op == "SaveCopy" || op == "SaveAll" || op == "RestoreAll"
+	if noLS && isLS && op != "ReplaceDb" && op != "SaveCopy" && op != "SaveAll" && op != "RestoreAll" {
 		return "skip", false
 	}
 	needApp := strings.HasPrefix(op, "App") || strings.HasPrefix(op, "Reader")
@@ -570,6 +570,31 @@ func (r *Runner) Step(st []any, noLS bool) (res string, ack bool) {
 		}
 		_, err := r.conn.ExecContext(ctx, "PRAGMA journal_mode = wal")
 		return errClass(err), false
+	case "SaveAll": // remember database, WAL and litestream's state directory (a snapshot of the whole directory)
+		if r.lsUp || r.inTx {
+			return "skip", false
+		}
+		dst := filepath.Join(r.tmp, "savedall")
+		os.RemoveAll(dst)
+		if err := copyTree(filepath.Dir(r.dbPath), dst, filepath.Base(r.dbPath)); err != nil {
+			return errClass(err), false
+		}
+		return "ok", false
+	case "RestoreAll": // the whole directory (database + WAL + state directory) is rolled back to the saved copy
+		src := filepath.Join(r.tmp, "savedall")
+		if _, err := os.Stat(src); err != nil || r.lsUp {
+			return "skip", false
+		}
+		r.closeApp()
+		base := filepath.Base(r.dbPath)
+		for _, n := range []string{base, base + "-wal", base + "-shm", "." + base + litestream.MetaDirSuffix} {
+			os.RemoveAll(filepath.Join(filepath.Dir(r.dbPath), n))
+		}
+		if err := copyTree(src, filepath.Dir(r.dbPath), base); err != nil {
+			return errClass(err), false
+		}
+		r.markLocalSeen() // the files that came back are old ones, not files litestream creates now
+		return errClass(r.openApp()), false
 	case "Snapshot":
 		if !r.lsUp {
 			return "skip", false
@@ -589,11 +614,50 @@ func (r *Runner) Step(st []any, noLS bool) (res string, ack bool) {
 	return "skip", false
 }
 
+// copyTree copies the database files and the state directory named after `base` from one directory to another.
+func copyTree(srcDir, dstDir, base string) error {
+	if err := os.MkdirAll(dstDir, 0o755); err != nil {
+		return err
+	}
+	for _, n := range []string{base, base + "-wal"} {
+		if _, err := os.Stat(filepath.Join(srcDir, n)); err == nil {
+			if err := copyFile(filepath.Join(srcDir, n), filepath.Join(dstDir, n)); err != nil {
+				return err
+			}
+		}
+	}
+	meta := "." + base + litestream.MetaDirSuffix
+	return filepath.Walk(filepath.Join(srcDir, meta), func(p string, fi os.FileInfo, err error) error {
+		if err != nil {
+			if os.IsNotExist(err) {
+				return nil
+			}
+			return err
+		}
+		rel, _ := filepath.Rel(srcDir, p)
+		if fi.IsDir() {
+			return os.MkdirAll(filepath.Join(dstDir, rel), 0o755)
+		}
+		return copyFile(p, filepath.Join(dstDir, rel))
+	})
+}
+
 func max(a, b int) int {
 	if a > b {
 		return a
 	}
 	return b
+}
+
+// markLocalSeen records every local level-0 file as already observed.
+func (r *Runner) markLocalSeen() {
+	d := filepath.Join(r.metaLTXDir(), "0")
+	ents, _ := os.ReadDir(d)
+	for _, e := range ents {
+		if fi, err := e.Info(); err == nil {
+			r.seenL0[fmt.Sprintf("%s/%d/%d", e.Name(), fi.Size(), fi.ModTime().UnixNano())] = true
+		}
+	}
 }
 
 func listLTX(dir string) [][]int {
